@@ -238,9 +238,12 @@ theorem go_listing (is : List Disasm.Instr) (hv : ∀ i ∈ is, Valid i) (pre po
     simp only [hr1, hr2, if_false, h1, ih']
 
 theorem nodes_listing (is : List Disasm.Instr) (hv : ∀ i ∈ is, Valid i) :
-    parseAsm.go (listing is).toArray (4 * (listing is).length + 100) (pairsFrom 0 is)
+    parseAsm.go (listing is).toArray (4 * (listing is).length + 100 + pairsSize (pairsFrom 0 is)) (pairsFrom 0 is)
       = .ok (is.map nodeOf) := by
-  have h := go_listing is hv [] [] (4 * (listing is).length + 97)
+  have h := go_listing is hv [] [] (4 * (listing is).length + 97 + pairsSize (pairsFrom 0 is))
+  have hf : 4 * (listing is).length + 97 + pairsSize (pairsFrom 0 is) + 3
+      = 4 * (listing is).length + 100 + pairsSize (pairsFrom 0 is) := by omega
+  rw [hf] at h
   simpa using h
 
 end Listing
